@@ -191,6 +191,7 @@ type interp struct {
 	maxDepth  int
 	evNames   map[string]bool
 	jerrPtr   types.Type
+	inlining  map[*types.Func]bool
 }
 
 type frame struct {
@@ -399,10 +400,57 @@ func (in *interp) evalExpr(fr *frame, st state, e ast.Expr) val {
 					return *rs
 				}
 			}
+			// a predicate helper whose body is one returned expression (a guard moved into a function or a method of
+			// the scanner): its value is that expression in the current state
+			if v, ok := in.inlineExpr(f, fr, st, x, 0); ok {
+				return v
+			}
 		}
 		return unknown
 	}
 	return unknown
+}
+
+// inlineExpr evaluates a call of a same-package helper whose body is `return <expr>` (no statements, hence no
+// effects besides those of the expression, which evalExpr does not perform) by evaluating <expr> with the
+// parameters and the receiver bound to the argument values.
+func (in *interp) inlineExpr(f *types.Func, caller *frame, st state, call *ast.CallExpr, depth int) (val, bool) {
+	d := in.decls[f]
+	if d == nil || d.Body == nil || len(d.Body.List) != 1 || in.inlining[f] {
+		return unknown, false
+	}
+	ret, ok := d.Body.List[0].(*ast.ReturnStmt)
+	if !ok || len(ret.Results) != 1 {
+		return unknown, false
+	}
+	if why := in.impureCallIn(ret.Results[0]); why != "" {
+		return unknown, false
+	}
+	fr := &frame{env: map[types.Object]val{}}
+	if d.Recv != nil && len(d.Recv.List) == 1 && len(d.Recv.List[0].Names) == 1 {
+		if sel, ok := ast.Unparen(call.Fun).(*ast.SelectorExpr); ok {
+			fr.env[in.pkg.TypesInfo.Defs[d.Recv.List[0].Names[0]]] = in.evalExpr(caller, st, sel.X)
+		}
+	}
+	i := 0
+	for _, fl := range d.Type.Params.List {
+		for _, n := range fl.Names {
+			if i < len(call.Args) && n.Name != "_" {
+				fr.env[in.pkg.TypesInfo.Defs[n]] = in.evalExpr(caller, st, call.Args[i])
+			}
+			i++
+		}
+		if len(fl.Names) == 0 {
+			i++
+		}
+	}
+	if in.inlining == nil {
+		in.inlining = map[*types.Func]bool{}
+	}
+	in.inlining[f] = true
+	v := in.evalExpr(fr, st, ret.Results[0])
+	delete(in.inlining, f)
+	return v, true
 }
 
 // callPure evaluates an effect-free same-package function on constant arguments.
